@@ -3820,10 +3820,19 @@ class Device(utils.CompositeEventEmitter):
             )  # TODO: timeout
 
         def on_connection(connection):
-            pending_connection.set_result(connection)
+            if (
+                # match the LE connection made as central for this request (not an
+                # incoming connection or a BR/EDR connection completing meanwhile)
+                connection.transport == PhysicalTransport.LE
+                and connection.role == hci.Role.CENTRAL
+                and peer_address
+                in (connection.peer_address, connection.peer_resolvable_address)
+            ):
+                pending_connection.set_result(connection)
 
         def on_connection_failure(error: core.ConnectionError):
-            pending_connection.set_exception(error)
+            if error.transport == PhysicalTransport.LE:
+                pending_connection.set_exception(error)
 
         # Create a future so that we can wait for the connection result
         pending_connection = asyncio.get_running_loop().create_future()
